@@ -48,6 +48,7 @@ def dispatch (f : List String) : String :=
   | ["m.debug", pa, fn, src, sc] => debugOp pa fn src sc
   | ["m.opt", l, p] => optOp l p
   | ["m.compile", l, p] => compileOp l p
+  | ["m.irrun", l, p, i, k] => irRunOp l p i k
   | ["m.exec", "run1", p, i, _] => runOptOp "1" p i
   | ["m.exec", "run2", p, i, _] => runOptOp "2" p i
   | ["m.exec", mode, p, i, mx] => execOp false mode p i mx
